@@ -284,6 +284,7 @@ func scTConc(r *Run) {
 	finished := 0
 	wait := time.After(8 * time.Second)
 	released := false
+	releaserDone := make(chan struct{})
 loop:
 	for finished < nG {
 		select {
@@ -293,6 +294,7 @@ loop:
 			if !released {
 				released = true
 				r.Go(func() {
+					defer close(releaserDone)
 					id := h.Invoke(99, tClose, 0)
 					err := conn.Close()
 					code := ErrNone
@@ -321,6 +323,18 @@ loop:
 			[]string{"client/live", "client/silent", "handle", "server"}[mode], hidden, strings.Join(pending, ", "), BlockedSummary())
 	} else {
 		// after close completed: writes fail, reads drain what was queued and then report end-of-stream
+		if released {
+			// (the harness's own Close has released every operation of the program; it may itself still be on its
+			// way, e.g. held in a yield: "after Close had returned" starts when it has)
+			select {
+			case <-releaserDone:
+			case <-time.After(30 * time.Second):
+				r.NoLeakCheck = true
+				r.Violate("C17/call-never-returns/Close", "mode %s hidden=%v: the Close that released the program's operations is itself still blocked 30 simulated seconds later; goroutines:\n  %s",
+					[]string{"client/live", "client/silent", "handle", "server"}[mode], hidden, BlockedSummary())
+				return
+			}
+		}
 		if !released {
 			id := h.Invoke(99, tClose, 0)
 			var err error
